@@ -175,7 +175,18 @@ func Generate(r *rand.Rand, hosts []string, o Opts) *Generated {
 			reply.Parent = g.mention(p, reply.Host)
 			e := g.mention(reply, c.Host)
 			if g.anomalous(o) {
-				switch r.Intn(8) {
+				switch r.Intn(9) {
+				case 8: // the author field points at an activity (of this host) whose object is an actor of another host: an activity is not an author
+					for _, a := range g.Actors {
+						if a.Host != reply.Host {
+							wrap := g.NewActivity(reply.Host, []string{"Announce", "Create", "Follow"}[r.Intn(3)], URL(g.Actors[r.Intn(len(g.Actors))]), URL(a))
+							reply.Creators = []*Edge{URL(wrap)}
+							if r.Intn(2) == 0 {
+								reply.Creators = []*Edge{Embed(wrap)}
+							}
+							break
+						}
+					}
 				case 7: // replies to another post whose address differs from this one's only in letter case (paths and queries are case-sensitive)
 					twin := twins[p]
 					if twin == nil {
